@@ -6,6 +6,7 @@
     the same - under a stated side condition where the code needs one, and with a [_refuted] witness showing
     that the side condition is necessary (each witness is also a concrete program on which the real
     transpiler was observed to give different results in one process; see known_findings.json).
+    Class bodies need no side condition any more (D15 was repaired in /repo commit 88d54a3).
 
     WHY [C12_partial] IS PARTIAL (and what covers the rest).
     (i)  Only the sites listed in [model/Order.v] are modelled.  The constraint generator's and the unifier's
@@ -31,26 +32,25 @@ Theorem C12_render_union_perm : forall fuel l l',
 Proof. exact render_union_perm. Qed.
 
 (** (b) the statements of a class body come out in the same order whatever the iteration orders of the
-    HashMap before ([e1]) and after ([e2]) the constructor is inserted - PROVIDED no two statements were
-    given the same position ([has_tie] is the decidable trigger of D15) *)
+    HashMap before ([e1]) and after ([e2]) the constructor is inserted - for EVERY class body: since /repo commit
+    88d54a3 the recorded position is a pair (slot, kind) and the pairs are pairwise distinct
+    ([C12_positions_distinct]) *)
 Theorem C12_class_body_perm : forall mk ms e1 e1' e2 e2',
-  has_tie mk ms = false ->
   Permutation (entries ms) e1 -> Permutation (entries ms) e1' ->
   Permutation (add_init mk e1) e2 -> Permutation (add_init mk e1') e2' ->
   class_body e2 = class_body e2'.
 Proof. exact class_body_deterministic. Qed.
 
-Theorem C12_class_body_refuted :
+Theorem C12_positions_distinct : forall mk ms, NoDup (map e_pk (add_init mk (entries ms))).
+Proof. exact positions_distinct. Qed.
+
+(** historical: the numbering before 88d54a3 (slot only, [class_body_old]) was order-dependent on the D15 witness,
+    where the current one is not *)
+Theorem C12_old_numbering_refuted :
   exists ms e e',
     Permutation (add_init false (entries ms)) e /\ Permutation (add_init false (entries ms)) e' /\
-    class_body e <> class_body e'.
-Proof. exact class_body_refuted. Qed.
-
-Theorem C12_class_body_init_refuted :
-  exists ms e e',
-    Permutation (add_init true (entries ms)) e /\ Permutation (add_init true (entries ms)) e' /\
-    class_body e <> class_body e'.
-Proof. exact class_body_init_refuted. Qed.
+    class_body_old e <> class_body_old e' /\ class_body e = class_body e'.
+Proof. exact d15_old_numbering_refuted. Qed.
 
 (** (c) context lookups: deterministic when base names are unique, not otherwise *)
 Theorem C12_class_lookup_perm : forall n l l',
@@ -114,7 +114,7 @@ Proof. exact perms_spec. Qed.
     histories, are covered by runtime testing only. *)
 Definition C12_partial_statement : Prop :=
   (forall fuel l l', NoDup (map canon l) -> Permutation l l' -> to_py_name fuel l = to_py_name fuel l') /\
-  (forall mk ms e1 e1' e2 e2', has_tie mk ms = false ->
+  (forall mk ms e1 e1' e2 e2',
      Permutation (entries ms) e1 -> Permutation (entries ms) e1' ->
      Permutation (add_init mk e1) e2 -> Permutation (add_init mk e1') e2' ->
      class_body e2 = class_body e2') /\
@@ -150,15 +150,13 @@ Example C12_example_union :
     = "Union[float, Optional[list[Union[int, str]]], MyB]".
 Proof. split; [vm_compute; repeat constructor; cbn; intuition discriminate|reflexivity]. Qed.
 
-Example C12_example_no_tie :
-  has_tie true [MOther; MVar "a" true; MVar "b" true; MFun "m1"; MFun "m2"] = false /\
+Example C12_example_class_body :
   class_body_outcomes true [MOther; MVar "a" true; MVar "b" true; MFun "m1"; MFun "m2"]
-    = [[LStmt 0; LStmt 1; LStmt 2; LInit; LStmt 3; LStmt 4]].
-Proof. split; vm_compute; reflexivity. Qed.
-
-Example C12_example_tie_two_outcomes :
-  has_tie false d15_members = true /\ List.length (class_body_outcomes false d15_members) = 2.
-Proof. split; vm_compute; reflexivity. Qed.
+    = [[LStmt 0; LStmt 1; LStmt 2; LInit; LStmt 3; LStmt 4]] /\
+  (* the D15 witness and [field, method, field] with a generated constructor: one body each *)
+  class_body_outcomes false d15_members = [[LStmt 1; LStmt 2; LStmt 0; LStmt 4; LStmt 3]] /\
+  class_body_outcomes true [MVar "f1" true; MFun "m1"; MVar "f2" true] = [[LStmt 0; LStmt 2; LInit; LStmt 1]].
+Proof. repeat split; vm_compute; reflexivity. Qed.
 
 Example C12_example_lookup_hyp : NoDup (map g_name [foo_plain; helper_int; p1_f]).
 Proof. vm_compute. repeat constructor; cbn; intuition discriminate. Qed.
@@ -167,13 +165,10 @@ Proof. vm_compute. repeat constructor; cbn; intuition discriminate. Qed.
 Check C12_render_union_perm : forall fuel l l',
   NoDup (map canon l) -> Permutation l l' -> to_py_name fuel l = to_py_name fuel l'.
 Check C12_class_body_perm : forall mk ms e1 e1' e2 e2',
-  has_tie mk ms = false ->
   Permutation (entries ms) e1 -> Permutation (entries ms) e1' ->
   Permutation (add_init mk e1) e2 -> Permutation (add_init mk e1') e2' ->
   class_body e2 = class_body e2'.
-Check C12_class_body_refuted : exists ms e e',
-  Permutation (add_init false (entries ms)) e /\ Permutation (add_init false (entries ms)) e' /\
-  class_body e <> class_body e'.
+Check C12_positions_distinct : forall mk ms, NoDup (map e_pk (add_init mk (entries ms))).
 Check C12_class_lookup_perm : forall n l l',
   NoDup (map g_name l) -> Permutation l l' -> class_lookup n l = class_lookup n l'.
 Check C12_class_lookup_refuted : exists defs n e e',
@@ -197,8 +192,8 @@ Check C12_partial : C12_partial_statement.
 Print Assumptions C12_partial.
 Print Assumptions C12_render_union_perm.
 Print Assumptions C12_class_body_perm.
-Print Assumptions C12_class_body_refuted.
-Print Assumptions C12_class_body_init_refuted.
+Print Assumptions C12_positions_distinct.
+Print Assumptions C12_old_numbering_refuted.
 Print Assumptions C12_class_lookup_refuted.
 Print Assumptions C12_fun_lookup_refuted.
 Print Assumptions C12_member_lookup_perm.
